@@ -116,7 +116,7 @@ PROPS = {
                      "the session may access the key"],
     ),
     "C09": dict(
-        units=["security", "store", "dispatch", "permissions", "outbox", "sessions", "parser"],
+        units=["security", "store", "dispatch", "permissions", "outbox", "sessions", "parser", "consensus"],
         kani=[K_AUTH, K_KIND],
         undecided=["the ReplicateRequest (rp) arm; the Auth, UseDb and Resolve arms ARE verified with their own bodies (unit dispatch; unit sessions: a refused use-db leaves the whole "
                    "selection - database and user - as it was, an accepted user login binds exactly that user); of the closure bodies handed to the guards those of get / "
@@ -263,7 +263,7 @@ PROPS = {
                    "ReplicationMessage::count_replication", "ReplicationMessage::count_acknowledged", "ReplicationMessage::get_copy", "Databases::register_pending_opp",
                    "Databases::acknowledge_pending_opp", "Databases::get_pending_opp_copy", "replicate_message_to_all", "replicate_message_to_secoundary", "op_acknowledge"],
                    "parser": PARSER_FNS, "sessions": ["Database::inc_connections", "Database::dec_connections", "Database::connections_count", "release_previous_db",
-                   "Client::left", "Client::selected_db_name", "arm_use_db"], "oplog": ["read_operations_since", "read_operations_since_from_file", "Oplog::last_op_time", "Oplog::write_op_log", "Oplog::try_write_op_log", "ReplicateOpp::to_u8", "From<u8>@ReplicateOpp::from", "OpLogRecord::new"], "ids": ["generate_key_id", "create_temp_db", "Databases::add_database", "Databases::next_db_id"], "consensus": ["op_replicate_set", "op_set", "op_remove", "op_increment", "Database::try_resolve_conflict_response", "apply_change_to_db_try_fix_conflicts",
+                   "Client::left", "Client::selected_db_name", "arm_use_db"], "oplog": ["read_operations_since", "read_operations_since_from_file", "Oplog::last_op_time", "Oplog::write_op_log", "Oplog::try_write_op_log", "ReplicateOpp::to_u8", "From<u8>@ReplicateOpp::from", "OpLogRecord::new"], "ids": ["generate_key_id", "create_temp_db", "Databases::add_database", "Databases::next_db_id"], "consensus": ["op_create_user", "op_set_permissions", "user_name_key_from_user_name", "permissions_key_from_user_name", "op_replicate_set", "op_set", "op_remove", "op_increment", "Database::try_resolve_conflict_response", "apply_change_to_db_try_fix_conflicts",
                    "set_key_value", "Database::resolve_conflit", "Database::has_arbiter_connected", "Change::new"]},
         undecided=["transport loops, dispatcher unwraps (e.g. try_send(..).unwrap() in the rp arm), lock poisoning propagation",
                    "Request::parse's table lookup (lazy_static HashMap of fn pointers) and the two snapshot parsers (iterator pipelines) are not verified",
